@@ -67,7 +67,7 @@ func wsConformingScript(maxFrames int, lenName string) *wsScript {
 		} else if lenName == "small" {
 			fr.n = 2 * vf.Choice("len.small", 2) // 0 or 2: lengths are not what this script is about
 		} else {
-			fr.n = wsPayloadLen(lenName, true)
+			fr.n = wsPayloadLen(lenName, false) // the 16/64-bit length classes are decided by the symbolic-length harnesses
 		}
 		fr.payload = vf.Bytes("payload", fr.n)
 		if !wsIsControl(fr.opcode) {
@@ -100,10 +100,10 @@ func wsCheckFrame(id string, f Frame, want *wsFrame) {
 }
 
 func VerifC06_Session() {
-	F := vf.Bound("frames", 3, 4)
+	F := vf.Bound("frames", 3, 3)
 	sc := wsConformingScript(F, "len")
 	sc.encode()
-	t := &sonic.VerifTransport{In: sc.wire, Total: len(sc.wire), Concrete: true, MaxWSegs: 1, MaxSegs: vf.Bound("segments", 2, 4), SplitLimit: vf.Bound("split-limit", 3, 16)}
+	t := &sonic.VerifTransport{In: sc.wire, Total: len(sc.wire), Concrete: true, MaxWSegs: 1, MaxSegs: vf.Bound("segments", 2, 2), SplitLimit: vf.Bound("split-limit", 3, 3)}
 	s := wsNewStream(t, 1<<20)
 	ctrlSeen := 0
 	s.SetControlCallback(func(mt MessageType, payload []byte) { ctrlSeen++ })
@@ -241,7 +241,7 @@ func VerifC06_MessageSymbolic() {
 	}
 	wire = append(wire, 0x80, byte(n2))
 	wire = append(wire, p2...)
-	t := &sonic.VerifTransport{In: wire, Total: len(wire), MaxSegs: vf.Bound("msg.segments", 2, 3), MaxWSegs: 1}
+	t := &sonic.VerifTransport{In: wire, Total: len(wire), MaxSegs: vf.Bound("msg.segments", 2, 2), MaxWSegs: 1}
 	s := wsNewStream(t, max)
 	vf.Unwind(200)
 	b := make([]byte, bufLen)
